@@ -130,7 +130,8 @@ static void canon(qtreetbl_t *t, const model_t *m, int withwalk, char *out) {
 }
 
 /* ------------------------------------------------------------------ operations */
-enum { OP_PUT, OP_REMOVE, OP_CLEAR, OP_WALK, OP_ABANDON, OP_NEAREST, OP_NEARWALK, OP_CYCLE, OP_WALKREMOVE, OP_PUTALIAS, OP_PUTHUGE };
+enum { OP_PUT, OP_REMOVE, OP_CLEAR, OP_WALK, OP_ABANDON, OP_NEAREST, OP_NEARWALK, OP_CYCLE, OP_WALKREMOVE, OP_PUTALIAS, OP_PUTHUGE, OP_GET };
+static int HIST_MODE;   /* histories without merging: see hist_rec below */
 typedef struct { int kind, k, v, j, nm; const char *label; } op_t;
 static op_t OPS[512]; static int NOPS; static int MODE_WALK, WITH_CYCLES;
 static blob_t PROBE[2 * MAXU + 2]; static int NPROBE;
@@ -325,6 +326,14 @@ static int apply(qtreetbl_t *t, model_t *m, const op_t *op, int check, const cha
             else if (check && e != ENOMEM) vc_viol("map:put-huge", "%s: put of a value of SIZE_MAX/2 bytes refused with errno %d, not ENOMEM", after, e);
             break;
         }
+        case OP_GET: {   /* a read as an operation: nothing the model knows changes, whatever the implementation remembers between calls may */
+            size_t sz = 4242; void *d = is_strcfg() ? t->get(t, (const char *)KEY[op->k].b, &sz, false) : t->getobj(t, KEY[op->k].b, KEY[op->k].n, &sz, false);
+            if (check) { if (!m->present[op->k]) { if (d) vc_viol("map:get-absent", "%s: get of an absent key returned data", after); }
+                         else if (VAL[m->val[op->k]].n == 0) { if (sz != 0) vc_viol("map:get-value", "%s: get of a key with an empty value reports %zu bytes", after, sz); }
+                         else if (!d) vc_viol("map:get-missing", "%s: get of a stored key returned NULL", after);
+                         else if (sz != VAL[m->val[op->k]].n || memcmp(d, VAL[m->val[op->k]].b, sz)) vc_viol("map:get-value", "%s: get returned %zu bytes that differ from the value last put", after, sz); }
+            break;
+        }
         case OP_WALKREMOVE: do_walkremove(t, m, op->j, check, after); break;
         case OP_NEAREST: return do_nearest(t, m, op->k, 0, op->nm, check, after);
         case OP_NEARWALK: return do_nearest(t, m, op->k, 1, op->nm, check, after);
@@ -337,7 +346,9 @@ static void build_ops(void) {
     for (int k = 0; k < U; k++) for (int v = 0; v < NV; v++) OPS[NOPS++] = (op_t){OP_PUT, k, v, 0, 0, is_strcfg() ? "qtreetbl_put" : "qtreetbl_putobj"};
     for (int k = 0; k < U; k++) OPS[NOPS++] = (op_t){OP_REMOVE, k, 0, 0, 0, is_strcfg() ? "qtreetbl_remove" : "qtreetbl_removeobj"};
     if (!MODE_WALK) { OPS[NOPS++] = (op_t){OP_CLEAR, 0, 0, 0, 0, "qtreetbl_clear"}; if (NV > 1) for (int k = 0; k < U; k++) OPS[NOPS++] = (op_t){OP_PUTALIAS, k, 0, 0, 0, is_strcfg() ? "qtreetbl_put" : "qtreetbl_putobj"};
-        for (int k = 0; k < U; k++) OPS[NOPS++] = (op_t){OP_PUTHUGE, k, 0, 0, 0, is_strcfg() ? "qtreetbl_put" : "qtreetbl_putobj"}; return; }
+        for (int k = 0; k < U; k++) OPS[NOPS++] = (op_t){OP_PUTHUGE, k, 0, 0, 0, is_strcfg() ? "qtreetbl_put" : "qtreetbl_putobj"};
+        for (int k = 0; k < U; k++) OPS[NOPS++] = (op_t){OP_GET, k, 0, 0, 0, is_strcfg() ? "qtreetbl_get" : "qtreetbl_getobj"};
+        return; }
     OPS[NOPS++] = (op_t){OP_CLEAR, 0, 0, 0, 0, "qtreetbl_clear"};     /* clear() keeps the traversal epoch machinery consistent as well */
     OPS[NOPS++] = (op_t){OP_WALK, 0, 0, 0, 0, "qtreetbl_getnext"};
     OPS[NOPS++] = (op_t){OP_WALK, 0, 0, 0, 1, "qtreetbl_getnext"};
@@ -390,7 +401,7 @@ static int transition(const uint16_t *hist, int d, int opi, char *ckey, int verb
         vc_asan_check();   /* reports raised by the history prefix belong to the transitions that ended in those ops */
         snprintf(after, sizeof after, "op %d", opi);
         vc_label(OPS[opi].label);
-        if (!MODE_WALK) precopy_map(t, &m);
+        if (!MODE_WALK && !HIST_MODE) precopy_map(t, &m);
         if (apply(t, &m, &OPS[opi], 1, after) < 0) dead = 1;
     }
     if (!dead) {
@@ -446,7 +457,7 @@ static int search(int maxdepth) {
                         if (strcmp(ckey, ckey2)) { printf("NOTE\treplay divergence on %s\n", key); vc_stat_add("replay_divergence", 1); }
                     }
                     if (b.nnodes <= 3 || (b.nnodes % 50000) == 0) {
-                        static const char *KN[] = {"put", "remove", "clear", "walk", "abandon-after", "nearest", "nearest+walk", "one-step-walks x", "walk-removing-element", "put-own-value", "put-unallocatable"};
+                        static const char *KN[] = {"put", "remove", "clear", "walk", "abandon-after", "nearest", "nearest+walk", "one-step-walks x", "walk-removing-element", "put-own-value", "put-unallocatable", "get"};
                         char txt[700], *q = txt; int shown = d > 12 ? 12 : d;
                         if (d > shown) q += sprintf(q, "... (%d earlier ops) ", d - shown);
                         for (int i = d - shown; i <= d && q - txt < 600; i++) { const op_t *o = &OPS[i < d ? hist[i] : op]; q += snprintf(q, 48, "%s(%d%s) ", KN[o->kind], o->kind == OP_ABANDON || o->kind == OP_CYCLE || o->kind == OP_WALKREMOVE ? o->j : o->k, o->kind == OP_PUT ? (o->v == 0 ? ",v0" : o->v == 1 ? ",v1" : o->v == 3 ? ",v1twin" : ",empty") : ""); }
@@ -472,6 +483,24 @@ static int search(int maxdepth) {
     return complete ? 0 : 2;
 }
 
+/* Histories without merging (map mode): the search above merges histories with equal canonical keys, which hides state the key cannot know about (a
+ * remembered node, a cache a later version may add). From a table holding the first n keys, every sequence of <= depth operations - reads included - is
+ * run; the last operation of each with all oracles. */
+static long n_hist;
+static void hist_rec(uint16_t *hist, int d, int left, long shard, long nshards, int top) {
+    static char key[VC_KEYMAX], ckey[1024];
+    for (int op = 0; op < NOPS; op++) {
+        if (top && nshards > 1 && op % nshards != shard) continue;
+        if (vc_deadline_hit() || VC_ENOUGH_VIOLATIONS()) { vc_exhaustive = 0; return; }
+        int n = mkprefix(key, hist, d); sprintf(key + n, "%d", op);
+        if (!vc_case(OPS[op].label, key)) continue;
+        long v0 = vc_nviol - n_soft;
+        int r = transition(hist, d, op, ckey, 0);
+        vc_case_end();
+        n_hist++;
+        if (r == 0 && vc_nviol - n_soft == v0 && left > 1) { hist[d] = (uint16_t)op; hist_rec(hist, d + 1, left - 1, shard, nshards, 0); }
+    }
+}
 static int replay(const char *key) {
     /* map:cfg:U:NV:ops  |  walk:U:epoch:ops */
     const char *p;
@@ -492,12 +521,20 @@ static int replay(const char *key) {
 }
 
 static int worker(int argc, char **argv) {
+    if (argc >= 6 && !strcmp(argv[5], "hist")) HIST_MODE = 1;
     if (vc_replay_key) return replay(vc_replay_key);
     if (argc < 5) return 1;
     int maxdepth = 0;
     if (!strcmp(argv[1], "map")) { MODE_WALK = 0; CFG = atoi(argv[2]); U = atoi(argv[3]); NV = atoi(argv[4]); }
     else { MODE_WALK = 1; CFG = argc > 5 ? atoi(argv[5]) : 0; NV = 1; U = atoi(argv[2]); maxdepth = atoi(argv[3]); START_EPOCH = atoi(argv[4]); WITH_CYCLES = maxdepth > 0 && CFG == 0; }
     setup_universe(); build_ops();
+    if (!MODE_WALK && argc >= 10 && !strcmp(argv[5], "hist")) {   /* tree map <cfg> <U> <NV> hist <n> <depth> <shard> <nshards> */
+        HIST_MODE = 1; static uint16_t hist[4096]; int n = atoi(argv[6]);
+        for (int i = 0; i < n; i++) { int k = (i * 3 + 1) % U; for (int o = 0; o < NOPS; o++) if (OPS[o].kind == OP_PUT && OPS[o].k == k && OPS[o].v == i % NV) hist[i] = (uint16_t)o; }
+        hist_rec(hist, n, atoi(argv[7]), atol(argv[8]), atol(argv[9]), 1);
+        vc_stat_add("states", n_hist); vc_stat_add("transitions", n_trans); vc_stat_add("histories_without_merging", n_hist); vc_stat_add("structure_checks", n_struct_checks); vc_stat_add("copies_verified", n_copies_checked); vc_stat_add("inputs_scribbled", n_scribbled);
+        return 0;
+    }
     int rc = search(maxdepth);
     if (rc == 2) vc_exhaustive = 0;
     return 0;
